@@ -115,3 +115,50 @@ Theorem C08_non_handshake_record_not_tracked :
              /\ count_sigs (flow_outs 8 [] (map (fun c => (1, c)) cs)) = 1%nat.
 Proof. exact non_handshake_record_is_not_tracked. Qed.
 Print Assumptions C08_non_handshake_record_not_tracked.
+
+(* ====================================================================================================
+   Per-worker clause, for the CONCRETE TLS worker pool (Model/PoolConcrete.v: n workers, each running the
+   packet-level analyzer model on a private flow table of capacity capw; dispatch = the real flow hash over
+   an arbitrary hasher SipH).  A framed ClientHello record r whose segments cs are the TCP payloads of the
+   frames of ONE flow k, dispatched among arbitrary other traffic under ANY schedule that ends with empty
+   queues: the flow is reported exactly once, on the completing segment, with the one-segment result.
+   Hypotheses besides those of C08_analyzer: every dispatched frame is in pool_dom (the analyzer reports
+   endpoints, Ethernet/raw framing with the announced IP version, not the open class raw_as_ethernet; frames
+   the hash would discard are excluded), no worker evicts (tls_pool_withinb).
+   Proof: Proofs/PoolInstances.v tls_per_worker = pool simulation + C18 affinity through Proofs/FrameBridge.v
+   + isolation (C07_tls_isolation) + C08_analyzer. *)
+From HN Require Import Base.Keyed Model.Hash Model.TlsAnalyzer Model.PoolConcrete Proofs.KeyedExamples Proofs.PoolInstances Proofs.PoolExamples.
+
+Theorem C08_per_worker :
+  forall (SipH : ident -> N) (n capw : N) (es : list (ev bytes)) (k : N)
+         (r tail : bytes) (cs : list bytes) (s : signature),
+    let x := tls_pool_run SipH n capw es in
+    0 < n -> (forall f, In f (dispatched bytes es) -> pool_dom f = true) ->
+    tls_pool_withinb SipH n capw es = true ->
+    (forall w, cq bytes N tls_out tls_state x w = []) ->
+    map tls_payload_of (fk bytes N tls_key N.eqb k (dispatched bytes es)) = map (fun c => Some (k, c)) cs ->
+    framed r -> lenN r <= READER_CAP -> admitted_version r = true -> parse_tls_client_hello r = RSig s ->
+    concat cs = r ++ tail -> 5 <= lenN (hd [] cs) -> calm (after_completion 0 (lenN r) cs) = true ->
+    map tls_sig_of (proj N tls_out N.eqb k (couts bytes N tls_out tls_state x)) = exactly_once 0 (lenN r) (RSig s) cs.
+Proof. exact tls_per_worker. Qed.
+Check C08_per_worker :
+  forall (SipH : ident -> N) (n capw : N) (es : list (ev bytes)) (k : N)
+         (r tail : bytes) (cs : list bytes) (s : signature),
+    let x := tls_pool_run SipH n capw es in
+    0 < n -> (forall f, In f (dispatched bytes es) -> pool_dom f = true) ->
+    tls_pool_withinb SipH n capw es = true ->
+    (forall w, cq bytes N tls_out tls_state x w = []) ->
+    map tls_payload_of (fk bytes N tls_key N.eqb k (dispatched bytes es)) = map (fun c => Some (k, c)) cs ->
+    framed r -> lenN r <= READER_CAP -> admitted_version r = true -> parse_tls_client_hello r = RSig s ->
+    concat cs = r ++ tail -> 5 <= lenN (hd [] cs) -> calm (after_completion 0 (lenN r) cs) = true ->
+    map tls_sig_of (proj N tls_out N.eqb k (couts bytes N tls_out tls_state x)) = exactly_once 0 (lenN r) (RSig s) cs.
+Print Assumptions C08_per_worker.
+
+(* satisfiable: the schedule of C10_tls_pool_example (two workers, flow A = tiny_hello in segments of 10 + 38
+   bytes around another flow on the other worker); the pool hypotheses are those of C10_tls_pool_example *)
+Example C08_per_worker_example :
+  let cs := [firstn 10 tiny_hello; skipn 10 tiny_hello] in
+  map tls_payload_of (fk bytes N tls_key N.eqb tls_kA (dispatched bytes tls_sched)) = map (fun c => Some (tls_kA, c)) cs /\
+  concat cs = tiny_hello ++ [] /\ 5 <= lenN (hd [] cs) /\
+  calm (after_completion 0 (lenN tiny_hello) cs) = true.
+Proof. exact tls_per_worker_example. Qed.
